@@ -13,7 +13,8 @@ Record ccase := CCase {
   c_applied : module;       (* libcst ApplyTypeAnnotationsVisitor(use_future_annotations=True) output *)
   c_out : module;           (* apply_stub_using_libcst(..., True) output *)
   c_newly : list item;      (* cli.get_newly_imported_items(stub, source) *)
-  c_changed : bool          (* the apply step changed the source text *)
+  c_changed : bool;         (* the apply step changed the source text *)
+  c_exact : bool            (* false: some line holds several small statements; compared with the specification only *)
 }.
 
 Definition imp_eqb (i i' : imp) : bool := imp_leb i i' && imp_leb i' i.
@@ -91,7 +92,7 @@ Definition verdict (c : ccase) : nat :=
   let hard := p_head c && p_under_tc c && p_needed c && p_tc_name c && p_no_second_copy c && p_no_empty_block c in
   let place := p_in_place c && p_bound c in
   let nonew := p_no_new_runtime c in
-  if hard && place && nonew then (if model_ok c && libcst_ok c then 0 else 1)
+  if hard && place && nonew then (if (negb (c_exact c) || model_ok c) && libcst_ok c then 0 else 1)
   else if hard && (place || sh) && (nonew || ex) then
     (if place then 22 else if nonew then 21 else 23)
   else 2.
@@ -100,7 +101,7 @@ Definition verdict (c : ccase) : nat :=
 Definition clauses (c : ccase) : list bool :=
   [p_head c; p_under_tc c; p_no_new_runtime c; p_in_place c; p_bound c; p_needed c;
    model_ok c; libcst_ok c; kf_shadow (c_stub c) (c_src c); kf_apply_extra (c_stub c) (c_src c) (c_applied c);
-   p_tc_name c; p_no_second_copy c; p_no_empty_block c].
+   p_tc_name c; p_no_second_copy c; p_no_empty_block c; kf_rebind (c_stub c) (c_src c) (c_applied c)].
 
 (* the clause vector as one number (leading 1, then one bit per clause, first clause = most significant) *)
 Definition clause_code (c : ccase) : nat :=
